@@ -23,3 +23,5 @@ import HypnoModel.Lemmas.Spacing
 import HypnoModel.Props.C09
 import HypnoModel.Gen.Metric
 import HypnoModel.Gen.PolSpacing
+import HypnoModel.Lemmas.Metric
+import HypnoModel.Props.C02
